@@ -439,8 +439,22 @@ def _inline_statement_helpers(tree: ast.Module) -> None:
             process(cls.body, helpers, True, dup)
 
 
+class _Idioms(ast.NodeTransformer):
+    """`a.flags.writeable = v`  ->  `a.setflags(write=v)` (the same NumPy operation)."""
+
+    def visit_Assign(self, node: ast.Assign):
+        self.generic_visit(node)
+        if len(node.targets) == 1:
+            t = node.targets[0]
+            if isinstance(t, ast.Attribute) and t.attr == "writeable" and isinstance(t.value, ast.Attribute) and t.value.attr == "flags":
+                call = ast.Call(func=ast.Attribute(value=t.value.value, attr="setflags", ctx=ast.Load()), args=[], keywords=[ast.keyword(arg="write", value=node.value)])
+                return ast.copy_location(ast.Expr(value=call), node)
+        return node
+
+
 def normalise_tree(tree: ast.Module) -> ast.Module:
     tree = _Unroll().visit(tree)
+    tree = _Idioms().visit(tree)
     try:
         _inline_statement_helpers(tree)
     except Exception:  # noqa: BLE001 - optional normal form
